@@ -382,8 +382,11 @@ class Interp:
                 return hits[0]
             del selfobj[hits[0]]
             return None
+        if isinstance(selfobj, (set, frozenset)) and name in ("update", "union", "issubset", "issuperset", "intersection", "difference"):
+            # generator / iterator arguments are materialised once, so that symbolic members are seen below
+            args = [a if isinstance(a, (set, frozenset, list, tuple, dict, str)) or type(a) in (SObj, NDArr) else list(self.iterate(a)) for a in args]
         if isinstance(selfobj, (set, frozenset)) and name in ("add", "discard", "remove", "__contains__", "update", "union", "issubset", "issuperset", "intersection", "difference", "copy") \
-                and (any(needs_key(a) for a in args) or any(type(k) is SymKey for k in selfobj) or any(isinstance(a, (set, frozenset, list)) and any(type(k) is SymKey or needs_key(k) for k in a) for a in args)):
+                and (any(needs_key(a) for a in args) or any(type(k) is SymKey for k in selfobj) or any(isinstance(a, (set, frozenset, list, tuple)) and any(type(k) is SymKey or needs_key(k) for k in a) for a in args)):
             return self.sym_set_method(selfobj, name, args)
         if isinstance(selfobj, dict) and args and (needs_key(args[0]) or any(type(k) is SymKey for k in selfobj)) and name in ("get", "pop", "setdefault", "__contains__", "__getitem__"):
             k = self.dict_find(selfobj, args[0])
@@ -1608,6 +1611,8 @@ class Interp:
     def binop(self, opcls, a, b, inplace=False):
         from . import libmodels
 
+        if inplace and type(a) is NDArr:
+            return libmodels.nd_inplace(self, opcls, a, b)
         if type(a) is NDArr or type(b) is NDArr:
             return libmodels.nd_binop(self, opcls, a, b)
         if isinstance(a, (set, frozenset)) and isinstance(b, (set, frozenset)) and (has_symkey(a) or has_symkey(b)) \
